@@ -12,10 +12,11 @@ MkRels(Is, Ms, Os, Ts) ==
       i \in Is, m \in Ms, op \in Os, t \in Ts}
 
 (* right-hand sides: constant, other variable, affine, nonlinear catalogue *)
-TQuick == {T("aff", 2, 0, 0), T("aff", 0, 1, 0), T("aff", 1, -1, 0), T("aff", -1, 2, 0),
+(* (the constant 0 -- "x_i <= 0", falsy in Python -- is in the quick catalogue too) *)
+TQuick == {T("aff", 0, 0, 0), T("aff", 2, 0, 0), T("aff", 0, 1, 0), T("aff", 1, -1, 0), T("aff", -1, 2, 0),
            T("aff", 0, 0, 1), T("aff", 0, 1, 1), T("aff", 1, 1, -2),
            T("mul", 0, 1, 0), T("sq", -1, 1, 0), T("abs", 0, 1, 0), T("abs", 1, -1, 1)}
-TMore  == {T("aff", 0, 0, 0), T("aff", -3, 0, 0), T("aff", 0, -1, 0), T("aff", 2, 0, -1), T("aff", 0, 2, 0),
+TMore  == {T("aff", -3, 0, 0), T("aff", 0, -1, 0), T("aff", 2, 0, -1), T("aff", 0, 2, 0),
            T("aff", 0, -2, 1), T("aff", -1, 1, 1), T("aff", 3, -1, -1),
            T("mul", 1, -1, 0), T("mul", 0, 2, 0), T("sq", 0, 1, 0), T("sq", 0, -1, 1), T("sq", 2, 1, -1),
            T("abs", 0, -1, 0), T("abs", -1, 2, 0), T("abs", 0, 1, -1)}
@@ -28,6 +29,14 @@ TTri   == {T("aff", 1, 0, 0), T("aff", 0, 1, 0), T("aff", 0, 0, 1)}
 TPen   == {T("aff", 2, 0, 0), T("aff", 0, 1, 0), T("aff", 1, -1, 0), T("aff", 1, 1, -2), T("mul", 0, 1, 0), T("abs", 0, 1, 0)}
 TPen2  == {T("aff", 1, 0, 0), T("aff", 1, 0, -1)}
 TPen2T == {T("aff", 1, 0, 0), T("aff", 0, 1, 0), T("aff", 1, 0, -1), T("abs", -1, 1, 0)}
+
+(* multi-digit constants, coefficients and coordinates (10, 12, 100: texts like '10*x10', 'x1 <= 100'; index  *)
+(* replacement and number parsing must not stop at the first digit).  Separate small runs ("long").        *)
+TLong  == {T("aff", 10, 0, 0), T("aff", 100, 0, 0), T("aff", -12, 0, 0), T("aff", 0, 10, 0), T("aff", 2, 12, -10),
+           T("abs", -10, 1, 0)}
+TLongP == {T("aff", 10, 0, 0), T("aff", 100, 0, 0), T("aff", 0, 10, 0), T("aff", 2, 12, -10)}
+VLong  == {-12, 0, 1, 10, 100}
+VLongP == {-1, 0, 1, 10}            \* penalties are squares of 4*(lhs - rhs): keep them inside TLC's 32-bit integers
 
 Idx == 1..NR
 Singles == {<<a>> : a \in Idx}
@@ -44,6 +53,8 @@ QRelsS == MkRels({1, 2}, {1}, AllOps, TPairQ)
 TRelsS == MkRels(1..3, {1}, AllOps, TPairT)
 QRels3 == MkRels(1..3, {1}, {"<", ">=", "!="}, {T("aff", 1, 0, 0), T("aff", 0, 0, 1), T("aff", 0, 1, 0)})
 TRels3 == QRels3
+QRelsL == MkRels({1, 3}, {1}, AllOps, TLong)
+TRelsL == MkRels(1..3, {1}, AllOps, TLong)
 VS == {-1, 0, 2}
 V01 == {0, 1}
 (* negative control: dependent pairs break the earlier line *)
@@ -57,7 +68,12 @@ TRelsP2 == MkRels(1..3, {1, -2}, AllOps, TPen2T)
 QRelsP3 == MkRels(1..3, {1}, {"<=", ">", "="}, {T("aff", 1, 0, 0), T("aff", 0, 0, 1)})
 TRelsP3 == MkRels(1..3, {1, 2}, {"<=", ">", "=", "!="}, {T("aff", 1, 0, 0), T("aff", 0, 0, 1)})
 
+QRelsPL == MkRels({2}, {1, 10, -12}, AllOps, TLongP)
+TRelsPL == MkRels(1..3, {1, 10, -12}, AllOps, TLongP)
+
 QKs == {1, 3, 100}
+(* multipliers of the penalty runs: 0 is a legal multiplier (falsy in Python) that switches the penalty off *)
+PKs == {0, 1, 3, 100}
 QScales == {2, 1000}
 
 (* bounds, N = 2: every pair lo <= hi per coordinate over the values plus "no bound" *)
